@@ -366,6 +366,12 @@ def run_rand(sh, rec):
         shape = util.shape3d(rng, 4, 14) if d == 3 else util.shape2d(rng, 4, 40)
         if i % 9 == 0:
             shape = tuple(int(x) for x in rng.integers(5, 7, size=d))  # minimal composed interior
+        if i % 9 == 4:
+            # one long axis (34..70 cells), thin other axes: slab / blocking seams inside wrappers (at 32, 64, ...) only exist there
+            ls = [int(x) for x in rng.integers(5, 8, size=d)]
+            ls[int(rng.integers(d))] = int(rng.integers(34, 71))
+            shape = tuple(ls)
+            rec.count("fields_on_long_axis_grids")
         small = "min" if min(shape) < 5 else ("small" if min(shape) < 8 else "big")
         if leg == "integer":
             p, q = float(rng.choice(PREF)), float(rng.choice(PREF))
